@@ -57,3 +57,14 @@ func init() {
 		QuickBudgetS: 240, ThoroughBudgetS: 1800,
 	}
 }
+
+func init() {
+	propMeta["C01"] = Meta{
+		Level: "exploration",
+		Rule: "Each evaluation is one seeded simulated signing run: generated access structure (five families incl. non-ideal ones, 2-5 holders, sparse/large ids) with its independent reference predicate, key material from the trusted dealer or from a Gennaro/Canetti DKG run in the same simulated cluster, a qualified quorum drawn from the reference evaluator (minimal, minimal+extra, all holders), a message (empty, 1 byte, 32 bytes, 1 KiB, text), real session setup + real signing runner of the chosen protocol over the simulated network with reordering, duplication, redelivery and foreign injection, 1-2 concurrent signing sessions per key; every quorum member and one outsider aggregate. Non-trivial = at least one non-FIFO delivery or injected fault. Distinct = hash of (workload, configuration class, decision trace).",
+		Assumptions: []string{"independent verifiers: ECDSA and BIP-340 and plain Schnorr written from their specifications over /verif/ref curve arithmetic, plus crypto/ecdsa (P-256) and crypto/ed25519 where wire-compatible; BLS and Mina use the library verifier plus an omniscient algebraic check (semi-independent)", "message hashing uses the Go standard library hash functions"},
+		Real: []string{"pkg/mpc/signatures (lindell22, dkls23 bbot/softspoken, lindell17, boldyreva02, cggmp21 as listed in per_workload)", "pkg/mpc/session, dkg, sharing, zero", "pkg/ot, pkg/mpc/rvole", "pkg/network router, echo, exchange", "pkg/signatures verifiers", "curves, fields, proofs, commitments"},
+		Stub: commonStub, ExpectedProbes: []string{"dup", "redeliver", "inject", "quorum_minimal", "quorum_non_minimal", "quorum_all_holders", "non_cosigning_aggregator", "concurrent_signing_sessions", "non_ideal_structure", "keysource_gennaro", "keysource_canetti", "keysource_dealer", "independent_verifications"},
+		QuickBudgetS: 300, ThoroughBudgetS: 2700,
+	}
+}
